@@ -63,7 +63,7 @@ def check(ctx):
     vlib.write_ndjson(cin, cases)
     rc, log, to = ctx.go_run(drv, "TestVerifProducerScripts", env={"VERIF_CASES": cin, "VERIF_OUT": cout, "VERIF_PAR": 12}, timeout=1500)
     if rc != 0 or to:
-        if "panic" in log or "fatal error" in log:
+        if ("panic" in log or "fatal error" in log) and "rawSocket.go" in log:
             ctx.violation("the producer crashed while replaying fault scripts: " + (re.search(r"(panic:[^\n]*|fatal error:[^\n]*)", log) or re.search("(.*)", log[-200:])).group(1),
                           {"log": log[-3000:]})
             return
@@ -73,6 +73,8 @@ def check(ctx):
     index = {0: [], 1: [], 2: []}
     for c, r in zip(cases, res):
         ctx.count([c["script"], c["maxretry"], c["proto"]], nontrivial=bool(c["script"]))
+        if r.get("infra"):
+            raise vlib.Infra("producer driver could not set up a scenario: " + r["infra"])
         if r.get("hung"):
             ctx.violation("the producer stopped taking messages (hung) under fault script %s (retry limit %d)" % (c["script"], c["maxretry"]), {"case": c})
             continue
